@@ -118,7 +118,9 @@ fn min0_history(cx: &mut Ctx, ops: &[(u32, Vec<u64>)], force: bool) {
             13 => { // the static reader over the raw bytes, as blob stores use it
                    if v.uintbits() > 58 { Ok(String::new()) } else {
                    let v2 = v.clone(); let r = guarded(move || UintVecMin0::fast_get(v2.data(), v2.uintbits(), v2.uintmask(), a0).ok());
-                   match &r { Ok(Some(x)) => { if a0 < n && !known(&shadow, a0, *x) { bad = Some(format!("fast_get({}) = {} but a Vec holds {:?}", a0, x, shadow[a0])); } }
+                   let beyond = (a0 as u128 * v.uintbits() as u128) / 8 + 8 > v.data().len() as u128; // the load would leave the bytes handed in
+                   match &r { Ok(Some(x)) => { if a0 < n && !known(&shadow, a0, *x) { bad = Some(format!("fast_get({}) = {} but a Vec holds {:?}", a0, x, shadow[a0])); }
+                                               if a0 >= n && beyond { bad = Some(format!("fast_get({}) over {} bytes of {}-bit fields returned {} instead of the out-of-bounds error", a0, v.data().len(), v.uintbits(), x)); } }
                               Ok(None) => { if a0 < n { bad = Some(format!("fast_get({}) refuses an index below size {}", a0, n)); } }
                               Err(_) => {} }
                    must_refuse = Some(false);
@@ -131,6 +133,8 @@ fn min0_history(cx: &mut Ctx, ops: &[(u32, Vec<u64>)], force: bool) {
             _ => { // housekeeping accessors between the operations; the allocation must still carry the 8-byte load of the last field
                    let (b, sz) = (v.uintbits(), v.size());
                    let _ = (v.mem_size(), v.uintmask(), UintVecMin0::compute_mem_size_by_max_val(v.uintmask(), sz));
+                   // the width computed for a value holds the value (new / build_from / push_back size their fields with it)
+                   { let w = UintVecMin0::compute_uintbits(cap as usize); if w < 64 && (cap >> w) != 0 { bad = Some(format!("compute_uintbits({}) = {} does not hold the value", cap, w)); } }
                    if sz > 0 && b <= 58 { match UintVecMin0::fast_get(v.data(), b, v.uintmask(), sz - 1) {
                        Ok(x) => if !known(&shadow, sz - 1, x) { bad = Some(format!("fast_get(last) = {} but a Vec holds {:?}", x, shadow[sz - 1])); },
                        Err(_) => bad = Some(format!("the allocation of {} bytes does not carry an 8-byte load of the last of {} fields of {} bits", v.mem_size(), sz, b)) } }
@@ -141,7 +145,10 @@ fn min0_history(cx: &mut Ctx, ops: &[(u32, Vec<u64>)], force: bool) {
                        if must_refuse == Some(true) && bad.is_none() { bad = Some(format!("op {} {:?} on {} elements was not refused", op, a, n)); } }
             Err(msg) => {
                 if *op < 8 { obs.push("[(-1)]%Z".to_string()); }
-                if v.uintbits() > 58 || a.iter().any(|&x| x >= (1u64 << 58)) { wide = true; }
+                // the recorded finding is about field widths above 58 bits: the arguments that carry a value or a width, not the indices
+                let wide_arg = match op { 0 | 1 => a1 as u64 >= (1u64 << 58), 3 => a0 as u64 >= (1u64 << 58), 11 => a1 != usize::MAX && a1 > 58, 12 => a1 != usize::MAX && a1 as u64 >= (1u64 << 58),
+                    6 | 14 => a.iter().max().copied().unwrap_or(0) - a.iter().min().copied().unwrap_or(0) >= (1u64 << 58), _ => false };
+                if v.uintbits() > 58 || wide_arg { wide = true; }
                 // a panic is a property violation unless it is the documented refusal of an out-of-range index/value
                 let refusal = match must_refuse { Some(t) => t, None => msg.contains("out of bounds") || msg.contains("exceeds max") };
                 if !refusal {
@@ -209,7 +216,7 @@ fn gen_history(r: &mut Rng, ext: bool) -> Vec<(u32, Vec<u64>)> {
             10 | 11 => { let i = if size > 1 && r.chance(9, 10) { r.below(size - 1) } else if r.chance(1, 8) { u64::MAX } else { size.saturating_sub(1) + r.below(2) }; ops.push((8, vec![i])); }
             12 => ops.push((9, vec![])),
             13 | 14 => { ops.push((10, vec![])); if r.chance(1, 2) { ops.push((3, vec![val(r)])); size += 1; } }
-            15 => { let i = idx(r, size); ops.push((13, vec![i])); }
+            15 => { let i = if r.chance(1, 6) { *r.pick(&[1u64 << 61, (1u64 << 61) + 1, 1u64 << 58, u64::MAX, u64::MAX / 8 + 1, size + 64]) } else { idx(r, size) }; ops.push((13, vec![i])); }
             16 => { // change of size at the same width (keeps the prefix), rarely another width (then everything is rewritten)
                     let n = if r.chance(1, 2) { r.below(size + 1) } else { size + r.below(20) };
                     if r.chance(3, 4) { ops.push((if r.chance(1, 2) { 11 } else { 12 }, vec![n, u64::MAX])); size = n; }
@@ -479,7 +486,7 @@ pub fn run(args: &Args) {
     if std::env::var("C09_LOUD").is_ok() { std::panic::set_hook(Box::new(|i| { if let Some(l) = i.location() { if l.file().contains("harness") || l.file().contains("c09") { eprintln!("harness panic at {}:{}", l.file(), l.line()); } } })); }
     let th = args.thorough;
     let mut cx = Ctx {
-        sum: Summary::new("C09", "UintVecMin0: generated operation histories (new/set/get/push_back/resize/clear/build_from/dump) at widths 0,1,3,7,8,9,13,31,32,33,57,58 with values at mask and mask+1, every element read back and raw memory dumped, compared with the Coq model and with a shadow Vec; IntVec<8 types> x 3 constructors: all sequences of length <=4 over {0,1,MAX-1,MAX,MIN}, then 13 shapes (constant, arithmetic, sorted small/big steps, sorted with a jump near the end, one inversion, small range, full range, few huge outliers, type extremes, per-block bases, around zero, shifted random) at lengths 0..257 around 4/8/32/64/128/256 and (fewer) around 1000/1024/2048/10000/16384, read back at every index (sampled above 400) and five indices past the end; SortedUintVec: three presets and custom (block 16..256, offset 8..32, sample 16..64 bits, simd on/off, some invalid) x sorted sequences whose in-block deltas sit at 2^w-1, 2^w, 2^w+1 and whose bases sit at the sample-width limit and at u64::MAX, get/get2/get_block at every index and past the end; IntVec additionally: one vector of more than 10000 elements whose short last block carries the widest offsets (full analysis, block layout) and 59..63-bit fields whose last field ends in the last byte of the buffer (n*w = 121..127 mod 128); ZipIntVec: build_from_usize/u32, push with fixed and growing width, values up to usize::MAX; UintVector build_from and push (prefix re-read during construction) incl. runs and >1000 elements; UintVecMin0::build_from_i32/u32 incl. i32::MIN with i32::MAX; non-trivial = history of >=3 ops or sequence of >=2 elements"),
+        sum: Summary::new("C09", "UintVecMin0: generated operation histories (new/set/get/push_back/resize/clear/build_from/dump) at widths 0,1,3,7,8,9,13,31,32,33,57,58 with values at mask and mask+1, every element read back and raw memory dumped, compared with the Coq model and with a shadow Vec; IntVec<8 types> x 3 constructors: all sequences of length <=4 over {0,1,MAX-1,MAX,MIN}, then 13 shapes (constant, arithmetic, sorted small/big steps, sorted with a jump near the end, one inversion, small range, full range, few huge outliers, type extremes, per-block bases, around zero, shifted random) at lengths 0..257 around 4/8/32/64/128/256 and (fewer) around 1000/1024/2048/10000/16384, read back at every index (sampled above 400) and five indices past the end; SortedUintVec: three presets and custom (block 16..256, offset 8..32, sample 16..64 bits, simd on/off, some invalid) x sorted sequences whose in-block deltas sit at 2^w-1, 2^w, 2^w+1 and whose bases sit at the sample-width limit and at u64::MAX, get/get2/get_block at every index and past the end; IntVec additionally: one vector of more than 10000 elements whose short last block carries the widest offsets (full analysis, block layout) and 59..63-bit fields whose last field ends in the last byte of the buffer (n*w = 121..127 mod 128); ZipIntVec: build_from_usize/u32, push with fixed and growing width, values up to usize::MAX; UintVector build_from and push (prefix re-read during construction) incl. runs and >1000 elements; UintVecMin0::build_from_i32/u32 incl. i32::MIN with i32::MAX; breadth: half of the UintVecMin0 histories also use get2, back, shrink_to_fit, resize_with_uintbits / resize_with_wire_max_val, the static fast_get (incl. indices at 2^61), typed builders and Default as starts, every width 0..58, with the allocation checked to carry the last 8-byte load after every operation; ZipIntVec histories over all 17 entry points with a swap partner; SortedUintVec fed by push / extend / both / new / default / with_pool / a builder reused after refusals, re-read through to_bytes + from_bytes and through larger and shorter block buffers; UintVector started by with_capacity / Default and a bulk-built prefix of every layout continued by pushes that change the layout; IntVec read through a clone, unique minimum / maximum at the ends of the 8- and 16-element scan chunks and around the 128-element switch, sizes thr-1, thr, thr+1 of the full analysis per element size (17408 one-byte elements, 10001 otherwise); every container at 65535, 65536, 65537 and 2^20+1 elements described by (container, kind, n, seed); non-trivial = history of >=3 ops or sequence of >=2 elements"),
         shards: CoqShards::new(HEADER, 100),
         budget: if th { 12000 } else { 1500 },
         model_sorted: MODEL_SORTED, n_sorted_coq: 0, cap_sorted_coq: if th { 4000 } else { 450 },
@@ -525,9 +532,6 @@ pub fn run(args: &Args) {
     // the full analysis (more than 10000 elements), replayed in the model
     match rng.below(4) { 0 => intvec::full_analysis_case::<u16>(&mut cx, &mut rng), 1 => intvec::full_analysis_case::<u32>(&mut cx, &mut rng),
                          2 => intvec::full_analysis_case::<i32>(&mut cx, &mut rng), _ => intvec::full_analysis_case::<u64>(&mut cx, &mut rng) }
-    // sizes across 2^16 / 2^20 and the 64 KiB marks, described by (container, kind, n, seed)
-    hist::gen_big(&mut cx, &mut rng);
-    if th { for _ in 0..4 { hist::gen_big(&mut cx, &mut rng); } }
     // UintVector: a bulk-built prefix of each layout (raw: fewer than 4 / incompressible; min-max; run length), continued by pushes across the
     // 64-value recompression marks whose values make the recompression change the layout
     for pk in 0..4u32 { for &split in &[1usize, 3, 4, 5, 63, 64, 65, 130] { for &np in &[1usize, 63, 64, 65, 128, 129] { for tk in 0..3u32 {
@@ -536,7 +540,7 @@ pub fn run(args: &Args) {
         let vals: Vec<u32> = (0..split).map(|k| pre(k)).chain((0..np).map(|k| tail(k))).collect();
         uintvector_mixed_case(&mut cx, &vals, split);
     } } } }
-    let nh = if th { 30000 } else { 2000 };
+    let nh = if th { 40000 } else { 3000 };
     for i in 0..nh {
         let ops = gen_history(&mut rng, i % 2 == 1);
         if i < 2 { cx.sum.sample(json!({"min0_history": ops.iter().take(8).map(|(o, a)| json!([o, a.iter().take(6).collect::<Vec<_>>()])).collect::<Vec<_>>()})); }
@@ -580,6 +584,10 @@ pub fn run(args: &Args) {
         let tu: Vec<i64> = tv.iter().map(|&x| (x as i32 as u32) as i64).collect();
         min0_typed_case(&mut cx, &tu, false, false);
     }
+    // sizes across 2^16 / 2^20 and the 64 KiB marks, described by (container, kind, n, seed); last, so that a defect that small
+    // histories show as well is reported (and shrunk) on one of those
+    hist::gen_big(&mut cx, &mut rng);
+    if th { for _ in 0..4 { hist::gen_big(&mut cx, &mut rng); } }
     { let ok = zipora::memory::SecureMemoryPool::new(zipora::memory::SecurePoolConfig::small_secure()).ok().and_then(|p| std::sync::Arc::try_unwrap(p).ok()).is_some();
       cx.sum.dist_max("sorted_with_pool_constructible", ok as u64); }
     cx.sum.dist_max("coq_cases", cx.shards.len() as u64);
